@@ -40,7 +40,7 @@ SPECIALS = [" ", "  ", "%s", "%d", "%(x)s", "{}", "{0}", "\\", "\\n", "\"", "'",
 SCENARIOS = ["client_ok", "client_bad", "raw_PASS_ok", "raw_pass_ok", "raw_PaSs_bad", "raw_out_of_sequence", "raw_relogin",
              "raw_user_limit", "raw_server_limit", "raw_errors_after_login", "raw_cut_in_pass", "client_ok_ops", "raw_slow_manager",
              "raw_failing_manager", "raw_close_while_logged_in", "client_timeout_in_pass", "raw_latin1_pass", "raw_pipelined_pass",
-             "raw_pass_no_newline", "client_failing_manager", "client_hangup_after_pass", "client_acct_first", "raw_long_pass_two_pieces"]
+             "raw_pass_no_newline", "client_failing_manager", "client_hangup_after_pass", "client_acct_first", "raw_long_pass_two_pieces", "client_narrow_encoding"]
 
 
 def gen_password(rng):
@@ -181,6 +181,19 @@ async def scenario(net, hyg, name, password):
                 outcome.append(type(e).__name__)
             c.close()
             srv.close()
+        elif name == "client_narrow_encoding":
+            # a client whose encoding cannot carry every character of the password (ascii, or latin-1 when the password allows
+            # ascii): the login fails on the client's side or at the server, the log stays clean
+            enc = "ascii" if not password.isascii() else "latin-1"
+            c = aioftp.Client(path_io_factory=aioftp.MemoryPathIO, encoding=enc)
+            await c.connect("127.0.0.1", 2121)
+            try:
+                await c.login("alice", password)
+                outcome.append("ok")
+                await c.quit()
+            except Exception as e:
+                outcome.append(type(e).__name__)
+                c.close()
         elif name == "client_acct_first":
             # a server that wants the account before the password (USER -> 332, ACCT -> 331, PASS -> 230 / 530), and one that
             # wants it afterwards (USER -> 331, PASS -> 332, ACCT -> 230)
